@@ -407,7 +407,7 @@ fn e2e_case(prop: &str, idx: u64, seed: u64, root: &Path) -> CaseRec {
         let first = format!("{mk}; {}; find {} {} -type d > {}/D{di}.ls", pr(0), tmp.display(), user.display(), probe.display());
         let second = match k {
             Kind::Fail => "echo bad".to_string(),
-            Kind::Timeout => "sleep 3; echo ok".to_string(),
+            Kind::Timeout => "sleep 1; echo ok".to_string(),
             Kind::Skip => "(exit 80)".to_string(),
             Kind::Kill => "kill -9 $$".to_string(),
             _ => "echo ok".to_string(),
@@ -461,6 +461,12 @@ fn e2e_case(prop: &str, idx: u64, seed: u64, root: &Path) -> CaseRec {
     let out = cmd.args(&paths).current_dir(&dir).env("TMPDIR", &tmp).output().expect("run scrut");
     let code = out.status.code().unwrap_or(-1);
     let mut fails = vec![];
+    // a test case that timed out is aborted: nothing of it may still be running and bring a directory back once
+    // scrut is gone. Look at the directories only after the command would have finished by itself.
+    let waited = specs.iter().any(|s| s.kind == Kind::Timeout && !s.cram);
+    if waited {
+        std::thread::sleep(std::time::Duration::from_millis(1300));
+    }
     // --- clean-up
     let left: Vec<String> = std::fs::read_dir(&tmp).map(|r| r.filter_map(|e| e.ok()).map(|e| e.file_name().to_string_lossy().to_string()).collect()).unwrap_or_default();
     let parse_error = kinds.contains(&Kind::ParseError);
@@ -475,7 +481,7 @@ fn e2e_case(prop: &str, idx: u64, seed: u64, root: &Path) -> CaseRec {
         Mode::Keep => {}
         _ => {
             if !left.is_empty() {
-                fails.push(("C18:leftover".into(), format!("TMPDIR still holds {:?} after exit {code} (mode {:?}, kinds {:?})", left, mode, kinds)));
+                fails.push(("C18:leftover".into(), format!("TMPDIR still holds {:?} after exit {code} (mode {:?}, kinds {:?}{})", left, mode, kinds, if waited { "; looked 1.3 s after the exit, when the timed-out command would have ended" } else { "" })));
             }
         }
     }
@@ -485,6 +491,12 @@ fn e2e_case(prop: &str, idx: u64, seed: u64, root: &Path) -> CaseRec {
     }
     if user_left.iter().any(|n| n.starts_with("temp.")) {
         fails.push(("C18:user-dir-temp-left".into(), format!("temporary directory left inside --work-directory: {:?}", user_left)));
+    }
+    // "no directory it created remains": all that may be in the user's directory afterwards is what was there
+    // before (`old`) and what the test cases themselves made in their working directory (`s`, `s/t`)
+    let created: Vec<&String> = user_left.iter().filter(|n| n.as_str() != "old" && n.as_str() != "s" && !n.starts_with("temp.")).collect();
+    if !created.is_empty() {
+        fails.push(("C18:user-dir-created-left".into(), format!("--work-directory holds {:?} after exit {code}: created by scrut, not by a test case (mode {:?}, documents {:?})", created, mode, specs.iter().map(|s| s.name.clone()).collect::<Vec<_>>())));
     }
     // --- probes
     let mut pwd: BTreeMap<(usize, usize), String> = BTreeMap::new();
@@ -686,7 +698,7 @@ fn concurrent_case(prop: &str, idx: u64, root: &Path) -> CaseRec {
         fails.push(("C18:leftover".into(), format!("TMPDIR still holds {:?} after three concurrent runs", left)));
     }
     let _ = std::fs::remove_dir_all(&dir);
-    CaseRec { op: format!("namer - {0},{0},{0}", hex(b"doc.md")), impl_out: format!("{},{},{}", hex(b"doc.md"), hex(b"doc.md-1"), hex(b"doc.md-2")), oracle_fail: keep_own(prop, fails), nontrivial: false, tags: vec!["e2e:concurrent".into()] }
+    CaseRec { op: format!("namer - {0},{0},{0} case=conc.{idx}", hex(b"doc.md")), impl_out: format!("{},{},{}", hex(b"doc.md"), hex(b"doc.md-1"), hex(b"doc.md-2")), oracle_fail: keep_own(prop, fails), nontrivial: false, tags: vec!["e2e:concurrent".into()] }
 }
 
 /// an early abort (execution error in a later document) right after a document that left a large
@@ -733,7 +745,68 @@ fn abort_after_big_case(prop: &str, idx: u64, root: &Path) -> CaseRec {
         }
     }
     let _ = std::fs::remove_dir_all(&dir);
-    CaseRec { op: format!("namer - {0},{0}", hex(b"doc.md")), impl_out: format!("{},{}", hex(b"doc.md"), hex(b"doc.md-1")), oracle_fail: keep_own(prop, fails), nontrivial: false, tags: vec!["e2e:abort-after-big".into()] }
+    CaseRec { op: format!("namer - {0},{0} case=abort.{idx}", hex(b"doc.md")), impl_out: format!("{},{}", hex(b"doc.md"), hex(b"doc.md-1")), oracle_fail: keep_own(prop, fails), nontrivial: false, tags: vec!["e2e:abort-after-big".into()] }
+}
+
+/// a test case that runs into a limit is aborted: once scrut has exited nothing of it may go on running, and so
+/// nothing may bring a directory back that scrut created and removed (the shell of the stateful executor
+/// persists its state from an EXIT trap, `mkdir -p` included).
+/// idx: work-directory (2) x kind of limit (3) x slow test case first / second (2)
+fn timeout_orphan_case(prop: &str, idx: u64, root: &Path) -> CaseRec {
+    let workdir = idx % 2 == 1;
+    let limit = idx / 2 % 3;
+    let second = idx / 6 % 2 == 1;
+    let dir = root.join(format!("orphan-{idx}"));
+    let _ = std::fs::remove_dir_all(&dir);
+    let tmp = dir.join("tmp");
+    let user = dir.join("userwork");
+    std::fs::create_dir_all(&tmp).unwrap();
+    std::fs::create_dir_all(user.join("old")).unwrap();
+    let marker = dir.join("marker");
+    let slow = format!("sleep 1; echo late > {}; echo ok", marker.display());
+    let head = if second { "# t0\n\n```scrut\n$ X=1; echo ok\nok\n```\n\n" } else { "" };
+    let (doc, text, args): (PathBuf, String, Vec<&str>) = match limit {
+        0 => (dir.join("doc.md"), format!("{head}# slow\n\n```scrut {{timeout: 300ms}}\n$ {slow}\nok\n```\n"), vec![]),
+        1 => (dir.join("doc.md"), format!("---\ntotal_timeout: 300ms\n---\n\n{head}# slow\n\n```scrut\n$ {slow}\nok\n```\n"), vec![]),
+        _ => (dir.join("doc.md"), format!("{head}# slow\n\n```scrut\n$ {slow}\nok\n```\n"), vec!["--timeout-seconds", "0"]),
+    };
+    // `--timeout-seconds 0` is "no limit": that variant is the control (the command ends by itself, the marker appears)
+    let control = limit == 2;
+    std::fs::write(&doc, text).unwrap();
+    let mut cmd = std::process::Command::new(scrut_bin());
+    cmd.arg("test").args(&args);
+    if workdir {
+        cmd.arg("--work-directory").arg(&user);
+    }
+    let out = cmd.arg(&doc).current_dir(&dir).env("TMPDIR", &tmp).output().expect("run scrut");
+    let code = out.status.code().unwrap_or(-1);
+    let mut fails = vec![];
+    let want = if control { 0 } else { 50 };
+    if code != want {
+        fails.push(("C18:orphan-scenario-exit".into(), format!("expected exit {want}, got {code}: {}", String::from_utf8_lossy(&out.stderr))));
+    }
+    let list = |d: &Path| -> Vec<String> { std::fs::read_dir(d).map(|r| r.filter_map(|e| e.ok()).map(|e| e.file_name().to_string_lossy().to_string()).collect()).unwrap_or_default() };
+    let at_exit = list(&tmp);
+    if !at_exit.is_empty() {
+        fails.push(("C18:leftover".into(), format!("TMPDIR holds {:?} right after exit {code}", at_exit)));
+    }
+    if !control {
+        std::thread::sleep(std::time::Duration::from_millis(1300));
+    }
+    let later = list(&tmp);
+    if !later.is_empty() {
+        fails.push(("C18:leftover-after-timeout".into(), format!("TMPDIR holds {:?} 1.3 s after scrut exited with {code}: the timed-out shell went on and brought the directory back", later)));
+    }
+    let user_later: Vec<String> = list(&user).into_iter().filter(|n| n != "old").collect();
+    if !user_later.is_empty() {
+        fails.push(("C18:leftover-after-timeout".into(), format!("--work-directory holds {:?} 1.3 s after scrut exited with {code}", user_later)));
+    }
+    // (that the slow command really is cut short is C14's business: exec.rs, stream e2e-timeout-aborts)
+    if control && !marker.exists() {
+        fails.push(("C18:orphan-scenario-marker".into(), "the control run (no limit) did not run its command to the end".into()));
+    }
+    let _ = std::fs::remove_dir_all(&dir);
+    CaseRec { op: format!("namer - {0} case=orphan.{idx}", hex(b"doc.md")), impl_out: hex(b"doc.md"), oracle_fail: keep_own(prop, fails), nontrivial: false, tags: vec!["e2e:timeout-orphan".into(), format!("e2e:orphan-limit={limit}")] }
 }
 
 pub fn run(ctx: &Ctx, prop: &str) {
@@ -753,6 +826,8 @@ pub fn run(ctx: &Ctx, prop: &str) {
     ctx.run_stream("e2e-concurrent", if ctx.thorough { 10 } else { 2 }, false, |idx| Some(concurrent_case(prop, idx, &r2)));
     let r2 = root.clone();
     ctx.run_stream("e2e-abort-after-big", if ctx.thorough { 16 } else { 4 }, false, |idx| Some(abort_after_big_case(prop, idx, &r2)));
+    let r2 = root.clone();
+    ctx.run_stream("e2e-timeout-orphan-exhaustive", 12, true, |idx| Some(timeout_orphan_case(prop, idx, &r2)));
     // 3. namer: exhaustive over request sequences up to length 4 over {a, a-1, b} x existing subsets of {a, a-1, a-2, b}
     let names = ["a", "a-1", "b"];
     let exist = ["a", "a-1", "a-2", "b"];
@@ -808,6 +883,9 @@ pub fn replay(prop: &str, op: &str) -> bool {
             let (seed, idx) = tag[1..].split_once('-').unwrap_or(("1", "0"));
             api_random(prop, idx.parse().unwrap_or(0), seed.parse().unwrap_or(1), &root)
         }
+        (Some("namer"), Some(["conc", idx])) => concurrent_case(prop, idx.parse().unwrap_or(0), &root),
+        (Some("namer"), Some(["abort", idx])) => abort_after_big_case(prop, idx.parse().unwrap_or(0), &root),
+        (Some("namer"), Some(["orphan", idx])) => timeout_orphan_case(prop, idx.parse().unwrap_or(0), &root),
         (Some("namer"), _) if parts.len() == 3 => {
             let f = |s: &str| -> Vec<String> { if s == "-" { vec![] } else { s.split(',').map(|h| String::from_utf8_lossy(&unhex(h)).to_string()).collect() } };
             namer_case(prop, f(parts[1]), f(parts[2]), &root, 0)
